@@ -18,15 +18,27 @@ fn target(rng: &mut Rng) -> J {
 
 pub fn gen(rng: &mut Rng, k: usize, _tier: &str) -> J {
     let extremes = k % 2 == 0;
-    let a = match rng.below(10) { 0..=6 => gen_scalar_ty(rng, extremes), 7 => json!(["opt", gen_scalar_ty(rng, extremes)]),
-                                  8 => { let n = 1 + rng.below(2) as usize; { let names = ["a", "b"]; json!(["struct", (0..n).map(|i| json!([names[i], gen_scalar_ty(rng, extremes)])).collect::<Vec<_>>()]) } }
+    let a = match rng.below(12) { 10 | 11 => { let n = 2 + rng.below(2) as usize; let names = ["a", "b", "c"]; json!(["struct", (0..n).map(|i| json!([names[i], gen_scalar_ty(rng, extremes)])).collect::<Vec<_>>()]) } 0..=6 => gen_scalar_ty(rng, extremes), 7 => json!(["opt", gen_scalar_ty(rng, extremes)]),
+                                  8 => { let n = 1 + rng.below(3) as usize; { let names = ["a", "b", "c"]; json!(["struct", (0..n).map(|i| json!([names[i], gen_scalar_ty(rng, extremes)])).collect::<Vec<_>>()]) } }
                                   _ => json!(["list", gen_scalar_ty(rng, extremes), [[0, 3]]]) };
-    let b = target(rng);
+    // composite targets: a struct with some of the source's fields (each widened to the full Float / Text variant or kept),
+    // a list / optional of a wider element — the liftings of `Base<Struct, Struct>`, `Base<List, List>`, `Base<Optional, Optional>`
+    let widen = |rng: &mut Rng, t: &J| -> J { match (jtag(t), rng.below(3)) { ("int", 0) | ("bool", 0) | ("float", 0) => json!(["float", [[f64::MIN, f64::MAX]]]), ("int", 1) | ("bool", 1) => json!(["int", [[i64::MIN, i64::MAX]]]), _ => t.clone() } };
+    let composite = rng.chance(1, 2);
+    let b = match jtag(&a) {
+        "struct" if composite => { let mut fs: Vec<J> = a[1].as_array().unwrap().iter().map(|f| json!([f[0], widen(rng, &f[1])])).collect(); if fs.len() > 1 && rng.chance(1, 2) { let i = rng.below(fs.len() as u64) as usize; fs.remove(i); } json!(["struct", fs]) }
+        "list" if composite => json!(["list", widen(rng, &a[1]), [[0, 5]]]),
+        "opt" if composite => json!(["opt", widen(rng, &a[1])]),
+        _ => target(rng),
+    };
     let v1 = gen_val_in(rng, &a);
     // a second value close to the first (neighbouring integers / floats collide first)
     let v2 = match &v1 {
         Some(v) if jtag(v) == "int" && rng.chance(1, 2) => { let x = v[1].as_i64().unwrap(); Some(json!(["int", if rng.chance(1, 2) { x.saturating_add(1) } else { x.saturating_sub(1) }])) }
         Some(v) if jtag(v) == "float" && rng.chance(1, 3) => { let x = v[1].as_f64().unwrap(); Some(json!(["float", if x == 0.0 { -0.0 } else { -x }])) }
+        // a struct that differs from the first one in a single field
+        Some(v) if jtag(v) == "struct" && rng.chance(2, 3) => { let mut fs: Vec<J> = v[1].as_array().unwrap().clone(); let i = rng.below(fs.len() as u64) as usize; let fname = fs[i][0].clone();
+            let fty = a[1].as_array().unwrap().iter().find(|f| f[0] == fname).map(|f| f[1].clone()); match fty.and_then(|t| gen_val_in(rng, &t)) { Some(nv) => { fs[i] = json!([fname, nv]); Some(json!(["struct", fs])) } None => gen_val_in(rng, &a) } }
         _ => gen_val_in(rng, &a),
     };
     json!({"a": a, "b": b, "v1": v1, "v2": v2})
